@@ -32,6 +32,17 @@ static int refmodel() {
 		if (s) KSI_Signature_free(s);
 	}
 	KSI_CTX_free(ctx);
+	// calendar: every chain to a publication time folds to that time's root, and derives its own aggregation time
+	{
+		ref::World w;
+		std::vector<uint64_t> ts;
+		for (int i = 0; i < 12; i++) { ref::ReplyMeta m; w.make_signature(ref::imprint(1, "c" + std::to_string(i)), 0, 77 + i, true, m); ts.push_back(m.agg_time); }
+		for (uint64_t t : ts) for (uint64_t p = t; p <= w.head(); p += 1 + (p % 3)) {
+			ref::CalChain c = w.cal.chain(t, p);
+			uint64_t dt = 0;
+			if (c.fold() != w.cal.root(p) || !c.derive_time(dt) || dt != t) { bad++; if (bad < 6) printf("refmodel: calendar chain(%llu,%llu) does not reproduce root / time\n", (unsigned long long)t, (unsigned long long)p); }
+		}
+	}
 	printf("selftest refmodel: %s (%d problems)\n", bad ? "FAILED" : "ok", bad);
 	return bad ? 1 : 0;
 }
